@@ -22,6 +22,20 @@ extern "C" {
 template <class T> union rawobj_u { T obj; char c; rawobj_u() : c(0) {} ~rawobj_u() {} };
 #define RAWSTORE(T, name) rawobj_u<T> name##_u; __builtin_memset((void*)&name##_u, 0, sizeof(name##_u)); void* name = (void*)&name##_u
 #define RAWOBJ(T, name) rawobj_u<T> name##_u; __builtin_memset((void*)&name##_u, 0, sizeof(name##_u)); T* name = &name##_u.obj
+// storage for an object that IS built by its real constructor: no memset (a memset would turn the object into a byte array for CBMC and defeat constant propagation of its fields)
+#define RAWCTOR(T, name) rawobj_u<T> name##_u; void* name = (void*)&name##_u
+#ifdef IRC_REPLAY
+// native replay build only: the same allocation meter the CBMC model of operator new keeps (C10 harnesses read irc_alloc_max)
+#include <cstdlib>
+#include <new>
+extern "C" { unsigned long long irc_alloc_max; }
+void* operator new(std::size_t n) { if (n > irc_alloc_max) irc_alloc_max = n; void* p = std::malloc(n ? n : 1); if (!p) std::abort(); return p; }
+void* operator new[](std::size_t n) { if (n > irc_alloc_max) irc_alloc_max = n; void* p = std::malloc(n ? n : 1); if (!p) std::abort(); return p; }
+void operator delete(void* p) noexcept { std::free(p); }
+void operator delete[](void* p) noexcept { std::free(p); }
+void operator delete(void* p, std::size_t) noexcept { std::free(p); }
+void operator delete[](void* p, std::size_t) noexcept { std::free(p); }
+#endif
 #define KFN extern "C" __attribute__((noinline))
 // fixed-array sink usable wherever the library is templated on Sink/Result/Container (push_back/append)
 struct fsink {
